@@ -16,6 +16,13 @@ Theorem C12_count_history :
 Proof. exact count_history. Qed.
 Print Assumptions C12_count_history.
 
+Theorem C12_totals_of_batches :
+  forall (batches : list (list Z)) (d : assoc Z) (k : Z),
+       aget Z (fold_left spec_count batches d) k =
+       option_map (fun v : Z => v + occ k (concat batches)) (aget Z d k).
+Proof. exact totals_of_batches. Qed.
+Print Assumptions C12_totals_of_batches.
+
 Theorem C12_totals_split_and_order_invariant :
   forall (bs bs' : list (list Z)) (d : assoc Z) (k : Z),
        Permutation.Permutation (concat bs) (concat bs') ->
